@@ -1315,11 +1315,31 @@ def JV.isComposite : JV → Bool | .obj _ => true | .arr _ => true | _ => false
 def objectStruct (n : String) : Bool :=
   Gen.c20ExtensionsFirst.contains n || (wrapperValueTy? n).isSome || (maplikeTy? n).isSome
 
+/-- a number in plain spelling (digits, sign, point, at most 15 characters). The YAML fallback of `unmarshal` re-reads
+    the bytes: a JSON number such as 1e999 is a string there and decodes into a string field, so only plain numbers
+    are claimed to clash with a string field -/
+def plainNum (s : String) : Bool :=
+  s.length ≤ 15 && s.toList.all (fun c => c.isDigit || c == '.' || c == '-')
+
+/-- a scalar of another JSON kind than the field's basic type accepts (`encoding/json` converts nothing, and the YAML
+    fallback of `unmarshal` has no target type below `T`, which has its own UnmarshalJSON): a number or boolean at a
+    string, a string or number at a bool, a string or boolean at a number. Whether a number FITS its integer /
+    float type is not claimed. -/
+def scalarKindClash (ctx : String) (j : JV) : Bool :=
+  match (Gen.c20ScalarKinds.find? (·.1 == ctx)).map (·.2), j with
+  | some "string", .num s => plainNum s
+  | some "string", .bool _ => true
+  | some "bool", .str _ => true
+  | some "bool", .num _ => true
+  | some "num", .str _ => true
+  | some "num", .bool _ => true
+  | _, _ => false
+
 def decodeMisfitAt (p : Pos) : Bool :=
   if p.j.isNull then false else
   match p.ty with
-  | .scalar => !p.inColl && Gen.c20PlainScalars.contains p.ctx && p.j.isComposite
-  | .ptr .scalar => !p.inColl && Gen.c20PlainScalars.contains p.ctx && p.j.isComposite
+  | .scalar => !p.inColl && Gen.c20PlainScalars.contains p.ctx && (p.j.isComposite || scalarKindClash p.ctx p.j)
+  | .ptr .scalar => !p.inColl && Gen.c20PlainScalars.contains p.ctx && (p.j.isComposite || scalarKindClash p.ctx p.j)
   | .struct n => objectStruct n && !p.j.isObj
   | .ptr (.struct n) => objectStruct n && !p.j.isObj
   | .mapOf _ => !p.j.isObj
